@@ -135,3 +135,41 @@ def zst_search(tier, seed, hbin, rundir, _alarm):
     lines = p.stdout.strip().split("\n")
     return dict(header="(degenerate item/priority types; see harness/src/zst.rs)", ops=[l.strip() for l in lines[1:]],
                 step=len(lines) - 2, why=lines[0], impl=lines[0], no_minimise=True)
+
+
+def huge(kinds, aspects):
+    """queues of 66 000 .. 133 000 elements (thorough: .. 1 050 000), straddling the
+    powers of two 2^16 .. 2^20: far beyond what the extracted model can run.
+    Implementation only, checked natively against a reference and against
+    the invariants the theorems prove for every size (harness/src/huge.rs).
+    `aspects` selects the clauses this property speaks about, so that a
+    defect in another clause does not alarm this property."""
+    def run(tier, seed, hbin, rundir, _alarm):
+        p = subprocess.run([hbin, "huge", kinds, str(seed), tier, aspects], stdout=subprocess.PIPE,
+                           stderr=subprocess.DEVNULL, text=True)
+        lines = p.stdout.strip().split("\n")
+        if p.returncode == 0 and lines and lines[-1].startswith("ok "):
+            _, nsc, steps, mx = lines[-1].split()
+            run.stats = dict(large_scenarios=int(nsc), large_steps=int(steps), large_max_size=int(mx), large_aspects=aspects)
+            return None
+        run.stats = dict(large_scenarios=0)
+        why = lines[0] if lines and lines[0] else "large-queue battery died (exit %d)" % p.returncode
+        return dict(header="(large queues, implementation only: pqharness huge %s %d %s %s)" % (kinds, seed, tier, aspects),
+                    ops=[l.strip() for l in lines[1:]], step=max(len(lines) - 2, 0), why=why, impl=why, no_minimise=True)
+    return run
+
+
+def chain(*fs):
+    """several implementation-only searches for one property"""
+    def run(tier, seed, hbin, rundir, alarm):
+        stats = {}
+        out = None
+        for f in fs:
+            v = f(tier, seed, hbin, rundir, alarm)
+            stats.update(getattr(f, "stats", {}))
+            if v and out is None:
+                out = v
+                break
+        run.stats = stats
+        return out
+    return run
